@@ -255,6 +255,15 @@ def check_case(case, rec):
         return [Failure("build_raises:%s" % type(exc).__name__, "%r\n%s" % (exc, source_text(nodes, case["order"])))]
     cls = shape_class(case)
     sc = "+".join(k for k, v in sorted(cls.items()) if v) or "plain"
+    commands = prog.commands
+    if case.get("drop_program"):
+        # the caller keeps the commands and lets go of the Program object (a loader that returns program.commands):
+        # reading a result still evaluates everything it depends on
+        import gc
+
+        del prog
+        gc.collect()
+        rec.label("program_object_dropped")
     executed = set()
     ran = False
     post_run_steps = 0
@@ -282,9 +291,9 @@ def check_case(case, rec):
             else:
                 op, i = step
                 i = i % n
-                r = prog.commands[name(i)].result
+                r = commands[name(i)].result
                 if op == "read_twice":
-                    r2 = prog.commands[name(i)].result
+                    r2 = commands[name(i)].result
                     if r2 != r:
                         fails.append(Failure("result_changes_between_reads|%s" % sc, "two reads of %s gave %r and %r" % (name(i), r, r2)))
                 want = executed | deps(nodes, i)
@@ -319,7 +328,7 @@ def check_case(case, rec):
     if not fails and ran:
         memo = {}
         for i in sorted(executed):
-            r = peek(prog.commands[name(i)])
+            r = peek(commands[name(i)])
             if r != expected_term(nodes, i, memo):
                 fails.append(Failure("wrong_result|%s" % sc, "%s = %r, expected %r\n%s" % (
                     name(i), r, expected_term(nodes, i, memo), source_text(nodes, case["order"]))))
@@ -459,7 +468,11 @@ def dag_cases(draw):
         if draw(st.booleans()):
             steps.append("run")
     builds = ["source", "api", "api_objects"] + ([] if typed else ["api_shared_lists"])
-    return {"nodes": nodes, "order": order, "build": draw(st.sampled_from(builds)), "steps": steps}
+    case = {"nodes": nodes, "order": order, "build": draw(st.sampled_from(builds)), "steps": steps}
+    if draw(st.integers(0, 5)) == 0:
+        case["drop_program"] = True
+        case["steps"] = [x for x in steps if isinstance(x, list) and x[0] in ("read", "read_twice")] or [["read", n - 1]]
+    return case
 
 
 # ----------------------------------------------------------------------------------- built-in commands
